@@ -379,6 +379,52 @@ def inTetOpen (q : V3 × V3 × V3 × V3) (p : V3) : Prop :=
     p.y = a * q.1.y + b * q.2.1.y + c * q.2.2.1.y + d * q.2.2.2.y ∧
     p.z = a * q.1.z + b * q.2.1.z + c * q.2.2.1.z + d * q.2.2.2.z
 
+/-! ### executable check of the GROUP hypotheses (identity, inverses, products) on the list of operations -/
+
+def Sym.isgn (s : Sym) : Int := (if s.tr then -1 else 1) * (if s.inv then -1 else 1)
+
+/-- the operation "first `s`, then `t`" on reduced row vectors: signed matrix product, flags cleared -/
+def Sym.comp (s t : Sym) : Sym :=
+  let a := s.isgn
+  let b := t.isgn
+  { m11 := (s.m11 * t.m11 + s.m12 * t.m21 + s.m13 * t.m31) * (a * b),
+    m12 := (s.m11 * t.m12 + s.m12 * t.m22 + s.m13 * t.m32) * (a * b),
+    m13 := (s.m11 * t.m13 + s.m12 * t.m23 + s.m13 * t.m33) * (a * b),
+    m21 := (s.m21 * t.m11 + s.m22 * t.m21 + s.m23 * t.m31) * (a * b),
+    m22 := (s.m21 * t.m12 + s.m22 * t.m22 + s.m23 * t.m32) * (a * b),
+    m23 := (s.m21 * t.m13 + s.m22 * t.m23 + s.m23 * t.m33) * (a * b),
+    m31 := (s.m31 * t.m11 + s.m32 * t.m21 + s.m33 * t.m31) * (a * b),
+    m32 := (s.m31 * t.m12 + s.m32 * t.m22 + s.m33 * t.m32) * (a * b),
+    m33 := (s.m31 * t.m13 + s.m32 * t.m23 + s.m33 * t.m33) * (a * b),
+    inv := false, tr := false }
+
+def idSym : Sym := ⟨1, 0, 0, 0, 1, 0, 0, 0, 1, false, false⟩
+
+/-- the two operations act in the same way on reduced vectors (same signed matrix) -/
+def Sym.sameAct (u v : Sym) : Bool :=
+  u.m11 * u.isgn == v.m11 * v.isgn && u.m12 * u.isgn == v.m12 * v.isgn && u.m13 * u.isgn == v.m13 * v.isgn &&
+  u.m21 * u.isgn == v.m21 * v.isgn && u.m22 * u.isgn == v.m22 * v.isgn && u.m23 * u.isgn == v.m23 * v.isgn &&
+  u.m31 * u.isgn == v.m31 * v.isgn && u.m32 * u.isgn == v.m32 * v.isgn && u.m33 * u.isgn == v.m33 * v.isgn
+
+/-- the list contains the identity, an inverse of every element and the product of any two elements (as actions) -/
+def groupCheck (syms : List Sym) : Bool :=
+  syms.any (fun e => e.sameAct idSym) &&
+  syms.all (fun s => syms.any fun t => (s.comp t).sameAct idSym) &&
+  syms.all (fun s => syms.all fun t => syms.any fun u => u.sameAct (s.comp t))
+
+/-! ### symmetric grids -/
+
+/-- `PointGroup.symmetric_grid(nk)`: every symmetry maps the lattice `b_i / nk_i` to itself, i.e. in reduced
+    coordinates `M_ij * nk_j / nk_i` is an integer for all i, j (the sign from inversion / time reversal is irrelevant) -/
+def symmetricGrid (syms : List Sym) (n : Idx) : Bool :=
+  syms.all fun s =>
+    decide ((s.m11 * n.1) % (n.1 : Int) = 0) && decide ((s.m12 * n.2.1) % (n.1 : Int) = 0) &&
+    decide ((s.m13 * n.2.2) % (n.1 : Int) = 0) &&
+    decide ((s.m21 * n.1) % (n.2.1 : Int) = 0) && decide ((s.m22 * n.2.1) % (n.2.1 : Int) = 0) &&
+    decide ((s.m23 * n.2.2) % (n.2.1 : Int) = 0) &&
+    decide ((s.m31 * n.1) % (n.2.2 : Int) = 0) && decide ((s.m32 * n.2.1) % (n.2.2 : Int) = 0) &&
+    decide ((s.m33 * n.2.2) % (n.2.2 : Int) = 0)
+
 /-! ### executable check of the group hypotheses of the orbit theorem (used on the code's own point groups) -/
 
 def inRangeB (div p : Idx) : Bool := decide (p.1 < div.1) && decide (p.2.1 < div.2.1) && decide (p.2.2 < div.2.2)
@@ -480,6 +526,10 @@ def handle : List String → String
     match parseSyms? syms, parseKPs? a, parseKPs? b with
     | some s, some [a], some [b] => showBool (equivK s a b)
     | _, _, _ => "bad-op"
+  | ["grouphyp", syms, div] =>
+    match parseSyms? syms, parseIdx? div with
+    | some s, some d => showBool (groupCheck s && symmetricGrid s d)
+    | _, _ => "bad-op"
   | ["orbithyp", syms, div] =>
     match parseSyms? syms, parseIdx? div with
     | some s, some d => showBool (orbitCheck d (starIdx s d))
